@@ -48,6 +48,8 @@ def spec_of(cfg):
     L = cfg['L']
     s = [(n, 'real', lo, hi) for n, lo, hi in COSTS if not (n == 'economics.ngprice' and cfg['kind'] != 'district-heating')]
     s += [('economics.RITC', 'real', 0, 1), ('economics.RITC.Provided', 'bool', None, None), ('economics.FixedInternalRate', 'real', 0, 100)]
+    p0 = c04.products_of(cfg['kind'])[0]
+    s += [(f'economics.PTC{p0}', 'real', 0, 10), (f'economics.PTC{p0}.Provided', 'bool', None, None)]      # production tax credit of the first product
     for p in c04.products_of(cfg['kind']):
         s += [(f'economics.{p}StartPrice', 'real', 0, 100), (f'economics.{p}EndPrice', 'real', 0, 100), (f'economics.{p}EscalationRate', 'real', 0, 100)]
         s += [(f'surfaceplant.{c04.PRODUCTS[p]}[{i}]', 'real', 0, None) for i in range(L)]
@@ -59,6 +61,7 @@ def drive(cfg, vals, symbolic):
     m = c04.prepared(base).reset()
     v = dict(vals)
     v.update(c04.FIXED)
+    v['economics.PTCDuration'] = cfg['L']      # (a credit lasting longer than the plant raises IndexError on the pinned tree: robustness, not C11)
     econ.install(m, v)
     econ.run_econ(m, symbolic=symbolic)
     return m
@@ -334,6 +337,7 @@ def run_addon(cfg, tier):
             m = c04.prepared(b).reset()
             v = dict(vals)
             v.update(c04.FIXED)
+            v['economics.PTCDuration'] = cfg['L']
             econ.install(m, v)
             econ.run_econ(m, symbolic=symbolic)
             outs.append(outs_of(m))
